@@ -243,6 +243,39 @@ def nasty_proto(r, name):
     return "\n".join(lines) + "\n"
 
 
+def cycles_doc(r, n):
+    """type-graph zoo: n small clusters of mutually recursive structs in shuffled declaration order - cycles through optional
+    fields, lists, sets of i32-keyed maps and map values; closed cycles next to cycles through the cluster's root; a member that
+    cannot be Hash / Eq / Ord (double, map, set) sitting in a different place each time.  (derive decisions, boxing)"""
+    out = ["struct ZLeaf { 1: required double value }", "struct ZKey { 1: required i32 k, 2: string s }"]
+    for i in range(n):
+        shape = r.randrange(6)
+        bad = r.choice(["ZLeaf", "double", "map<string, double>", "set<double>", "list<ZLeaf>"])
+        edge = lambda t: r.choice([f"optional {t}", f"list<{t}>", f"map<string, {t}>", f"optional list<{t}>", f"map<i32, list<{t}>>"])
+        if shape == 0:      # pair through containers, only one member holds the leaf
+            decls = [f"struct Node{i} {{ 1: required list<Group{i}> groups }}",
+                     f"struct Group{i} {{ 1: required list<Node{i}> nodes, 2: required {bad} leaf }}"]
+        elif shape == 1:    # root T with a closed cycle A<->B below it, a cycle U<->T through it, and the leaf
+            decls = [f"struct T{i} {{ 1: optional A{i} a, 2: optional U{i} u, 3: required {bad} n }}",
+                     f"struct A{i} {{ 1: {edge(f'B{i}')} b }}", f"struct B{i} {{ 1: {edge(f'A{i}')} a }}",
+                     f"struct U{i} {{ 1: {edge(f'T{i}')} t }}"]
+        elif shape == 2:    # triangle, leaf in one corner
+            decls = [f"struct P{i} {{ 1: {edge(f'Q{i}')} q }}", f"struct Q{i} {{ 1: {edge(f'R{i}')} r, 2: ZKey key }}",
+                     f"struct R{i} {{ 1: {edge(f'P{i}')} p, 2: optional {bad} x }}"]
+        elif shape == 3:    # self recursion in several ways plus a hashable use as set element / map key
+            decls = [f"struct Self{i} {{ 1: optional Self{i} next, 2: list<Self{i}> kids, 3: map<string, Self{i}> named, 4: set<ZKey> keys, 5: optional {bad} w }}",
+                     f"struct Use{i} {{ 1: set<ZKey> ks, 2: map<ZKey, Self{i}> m }}"]
+        elif shape == 5:    # the same with plain optional edges and a private non-hashable struct
+            decls = [f"struct Tp{i} {{ 1: optional Ap{i} a, 2: optional Up{i} u, 3: required Np{i} n }}",
+                     f"struct Ap{i} {{ 1: optional Bp{i} b }}", f"struct Bp{i} {{ 1: optional Ap{i} a }}",
+                     f"struct Up{i} {{ 1: optional Tp{i} t }}", f"struct Np{i} {{ 1: required double d }}"]
+        else:               # union in the cycle
+            decls = [f"union Alt{i} {{ 1: Wrap{i} w, 2: i32 n, 3: list<Alt{i}> more }}", f"struct Wrap{i} {{ 1: {edge(f'Alt{i}')} a, 2: optional {bad} z }}"]
+        r.shuffle(decls)
+        out += decls
+    return "\n".join(out) + "\n"
+
+
 def nesting_doc(r, tier):
     """every container nesting to depth 2 (quick: plus a sample of depth 3; thorough: all of depth 3) over the leaves double / i64 /
     string / struct / enum, each as list element, set element, map key and map value"""
@@ -295,6 +328,9 @@ def write_docs(workdir, seed, tier):
     text = nesting_doc(r, tier)
     open(os.path.join(src, "nesting.thrift"), "w").write(text)
     docs.append(("nesting", os.path.join(src, "nesting.thrift"), text, "thrift"))
+    text = cycles_doc(r, 60 if tier == "quick" else 160)
+    open(os.path.join(src, "cycles.thrift"), "w").write(text)
+    docs.append(("cycles", os.path.join(src, "cycles.thrift"), text, "thrift"))
     for i in range(3 if tier == "quick" else 16):
         d = nasty_doc(r, f"n{i}")
         text = idlgen.render(d)
